@@ -3,6 +3,7 @@ package c17
 
 import (
 	"fmt"
+	"regexp"
 	"strings"
 
 	"verif/mc/engine"
@@ -23,6 +24,10 @@ type Case struct {
 	Obj   string `json:"obj"`
 	Scope string `json:"scope"`
 	Ops   []Op   `json:"ops"`
+	// cross-object histories: after Ops on Obj, Op2 is applied to Obj2 in Scope2 on the same interpreter, and Obj is read again
+	Obj2   string `json:"obj2,omitempty"`
+	Scope2 string `json:"scope2,omitempty"`
+	Op2    *Op    `json:"op2,omitempty"`
 }
 
 var objects = []struct{ obj, scope string }{
@@ -51,6 +56,20 @@ func alphabet() []Op {
 			ops = append(ops, Op{Kind: "add", Name: n, Value: x.expr, Val: x.val})
 		}
 		ops = append(ops, Op{Kind: "unset", Name: n})
+	}
+	return ops
+}
+
+// separatorOps: sub-field values that contain the characters the header syntax itself uses
+func separatorOps() []Op {
+	var ops []Op
+	for _, n := range []string{"Foo", "fOO"} {
+		for _, val := range []string{"x,y", "x;y", "x y", "x=y", "x, y", ",", "a=1,b=2"} {
+			ops = append(ops, Op{Kind: "setfield", Name: n, Key: "a", Value: `"` + val + `"`, Val: val})
+		}
+	}
+	for _, val := range []string{"x,y", "x y", "x; y=z"} {
+		ops = append(ops, Op{Kind: "set", Name: "Foo", Value: `"` + val + `"`, Val: val})
 	}
 	return ops
 }
@@ -150,6 +169,64 @@ func execute(c Case) (map[int]snapshot, error) {
 	return parse(logs), nil
 }
 
+// executeCross: Ops on Obj (snapshots 0..n), then Op2 on Obj2 in its own scope, then snapshot n+1 of Obj.
+func executeCross(c Case) (map[int]snapshot, error) {
+	var b strings.Builder
+	b.WriteString("sub p1 {\n")
+	for _, n := range []string{"Foo", "Bar", "Never-Set"} {
+		fmt.Fprintf(&b, "  unset %s.http.%s;\n", c.Obj, n)
+	}
+	snap := func(i int) {
+		for _, r := range readNames() {
+			h := c.Obj + ".http." + r
+			fmt.Fprintf(&b, "  log \"S%d|%s=\" %s;\n", i, r, h)
+			fmt.Fprintf(&b, "  if (%s) { log \"S%d|%s?=T\"; } else { log \"S%d|%s?=F\"; }\n", h, i, r, i, r)
+		}
+	}
+	for _, o := range c.Ops {
+		b.WriteString("  " + o.stmt(c.Obj) + "\n")
+	}
+	snap(0)
+	b.WriteString("}\nsub p2 {\n  " + c.Op2.stmt(c.Obj2) + "\n}\nsub p3 {\n")
+	snap(1)
+	b.WriteString("}\n")
+	src := b.String()
+	ip, cap, err := sim.Prepare("sub vcl_recv { }\n")
+	if err != nil {
+		return nil, err
+	}
+	for _, st := range []struct{ scope, sub string }{{c.Scope, "p1"}, {c.Scope2, "p2"}, {c.Scope, "p3"}} {
+		if err := sim.CallSub(ip, st.scope, st.sub, src); err != nil {
+			return nil, err
+		}
+	}
+	return parse(cap.Logs), nil
+}
+
+func runCross(c Case) engine.Result {
+	snaps, err := executeCross(c)
+	if err != nil || snaps[0] == nil || snaps[1] == nil {
+		return engine.Result{Skipped: true}
+	}
+	res := engine.Result{NonTrivial: true, Steps: int64(len(c.Ops) + 1), Outcome: "cross"}
+	for _, r := range readNames() {
+		if snaps[0][r] != snaps[1][r] || snaps[0][r+"?"] != snaps[1][r+"?"] {
+			res.Findings = append(res.Findings, engine.Finding{Class: fmt.Sprintf("cross-object-frame|%s|%s->%s", c.Op2.Kind, objKind(c.Obj2), objKind(c.Obj)),
+				What: fmt.Sprintf("after %v on %s, `%s` on %s (scope %s) changed the read of %s.http.%s from %q (set=%s) to %q (set=%s)", c.Ops, c.Obj, c.Op2, c.Obj2, c.Scope2, c.Obj, r, snaps[0][r], snaps[0][r+"?"], snaps[1][r], snaps[1][r+"?"])})
+			res.Outcome = "law-violation"
+			break
+		}
+	}
+	return res
+}
+
+func objKind(o string) string {
+	if o == "req" || o == "bereq" {
+		return "request:" + o
+	}
+	return "response:" + o
+}
+
 func sameHeader(a, b string) bool {
 	return strings.EqualFold(strings.SplitN(a, ":", 2)[0], strings.SplitN(b, ":", 2)[0])
 }
@@ -198,7 +275,7 @@ func laws(o Op, before, after snapshot) []engine.Finding {
 						add("setfield-read|"+spellRel(r)+"|"+valClass(o.Val), fmt.Sprintf("after `%s`, %s reads %q, want %q", o, r, after[r], o.Val))
 					}
 				} else if before[r] != after[r] || before[r+"?"] != after[r+"?"] {
-					add("setfield-frame|"+spellRel(r), fmt.Sprintf("`%s` changed the other sub-field %s from %q to %q", o, r, before[r], after[r]))
+					add(frameClass("setfield-frame", spellRel(r)+"|value:"+valClass(o.Val), before, after, o.Name), fmt.Sprintf("`%s` changed the other sub-field %s from %q to %q", o, r, before[r], after[r]))
 				}
 			}
 		case "unsetfield":
@@ -209,12 +286,31 @@ func laws(o Op, before, after snapshot) []engine.Finding {
 						add("unsetfield-read|"+spellRel(r), fmt.Sprintf("after `%s`, %s reads %q (truthy=%s), want not set", o, r, after[r], after[r+"?"]))
 					}
 				} else if before[r] != after[r] || before[r+"?"] != after[r+"?"] {
-					add("unsetfield-frame|"+spellRel(r), fmt.Sprintf("`%s` changed the other sub-field %s from %q to %q", o, r, before[r], after[r]))
+					add(frameClass("unsetfield-frame", spellRel(r), before, after, o.Name), fmt.Sprintf("`%s` changed the other sub-field %s from %q to %q", o, r, before[r], after[r]))
 				}
 			}
 		}
 	}
 	return fs
+}
+
+var quotedPairRe = regexp.MustCompile(`"[^"]*,[^"]*=[^"]*"`)
+
+// quotedPair qualifies a class when the header holds, before or after the step, a quoted sub-field value that itself
+// contains `,key=` text (the recorded reader defect: sub-fields are found inside quoted values).
+func quotedPair(before, after snapshot, name string) string {
+	if quotedPairRe.MatchString(before[name]) || quotedPairRe.MatchString(after[name]) {
+		return "|quoted-pair-in-header"
+	}
+	return ""
+}
+
+// frameClass: one class per operation kind for the recorded reader defect, the detailed key otherwise.
+func frameClass(kind, detail string, before, after snapshot, name string) string {
+	if quotedPair(before, after, name) != "" {
+		return kind + "|quoted-pair-in-header"
+	}
+	return kind + "|" + detail
 }
 
 func fieldOrWhole(isField bool) string {
@@ -228,8 +324,10 @@ func valClass(v string) string {
 	switch {
 	case v == "":
 		return "empty"
-	case strings.Contains(v, "="):
+	case strings.Contains(v, "=") && strings.Contains(v, ","):
 		return "with-subfields"
+	case strings.ContainsAny(v, ",;= "):
+		return "with-separator"
 	case v == "l1":
 		return "multiline"
 	}
@@ -262,6 +360,9 @@ func swapRead(r string) string {
 }
 
 func run(c Case) engine.Result {
+	if c.Op2 != nil {
+		return runCross(c)
+	}
 	snaps, err := execute(c)
 	if err != nil {
 		return engine.Result{Skipped: true}
@@ -341,6 +442,42 @@ func gen17(tier string, emit func(Case)) {
 			}
 		}
 		rec(nil, ops, depth)
+		// values with separators: every history of up to 2 operations over the sub-field operations on Foo/fOO plus the separator values
+		{
+			var small []Op
+			for _, o := range ops {
+				if o.Name != "Bar" && (o.Kind == "setfield" || o.Kind == "unsetfield" || (o.Kind == "set" && o.Val == "a=1,b=2")) {
+					small = append(small, o)
+				}
+			}
+			seps := separatorOps()
+			for _, a := range seps {
+				emit(Case{Obj: ob.obj, Scope: ob.scope, Ops: []Op{a}})
+				for _, b2 := range small {
+					emit(Case{Obj: ob.obj, Scope: ob.scope, Ops: []Op{a, b2}})
+					emit(Case{Obj: ob.obj, Scope: ob.scope, Ops: []Op{b2, a}})
+				}
+				for _, b2 := range seps {
+					emit(Case{Obj: ob.obj, Scope: ob.scope, Ops: []Op{a, b2}})
+				}
+			}
+		}
+		// cross-object histories: 0 or 1 operation on this object, then one operation on each other object; this object's reads must not move
+		for _, ob2 := range objects {
+			if ob2.obj == ob.obj {
+				continue
+			}
+			for i := range ops {
+				o2 := ops[i]
+				emit(Case{Obj: ob.obj, Scope: ob.scope, Obj2: ob2.obj, Scope2: ob2.scope, Op2: &o2})
+				for _, o1 := range ops {
+					if o1.Name == "Bar" || (tier != "thorough" && o2.Name == "Bar") {
+						continue
+					}
+					emit(Case{Obj: ob.obj, Scope: ob.scope, Ops: []Op{o1}, Obj2: ob2.obj, Scope2: ob2.scope, Op2: &o2})
+				}
+			}
+		}
 		if tier == "thorough" && oi == 0 {
 			var foo []Op
 			for _, o := range ops {
@@ -357,13 +494,16 @@ func init() {
 	engine.Register(engine.Spec[Case]{
 		ID:    "C17",
 		Level: "model_checking",
-		Rule: "explicit-state exploration of the real header objects: every history of up to 3 operations on req and 2 on the other objects (quick) / 3 on all objects and 4 on req over the 28 operations on Foo/fOO (thorough), over an alphabet of 42 operations (set with 5 values incl. empty, not-set, multi-line and a value with sub-fields; set/unset of sub-fields a and b; add; unset; on the names Foo, fOO, Bar) on req (recv), bereq (miss), beresp (fetch), obj (error) and resp (deliver); each history runs on a fresh interpreter through the real statement path with a snapshot of 9 reads (+ set/not-set test) after every step; invariants (read-after-set, read-after-unset, frame conditions for other headers and other sub-fields) on every transition and spelling invariance (history with Foo/fOO swapped) on every final state; a state is the vector of reads (used for counting only, histories are never pruned)",
+		Rule: "explicit-state exploration of the real header objects: every history of up to 3 operations on req and 2 on the other objects (quick) / 3 on all objects and 4 on req over the 28 operations on Foo/fOO (thorough), over an alphabet of 42 operations (set with 5 values incl. empty, not-set, multi-line and a value with sub-fields; set/unset of sub-fields a and b; add; unset; on the names Foo, fOO, Bar) on req (recv), bereq (miss), beresp (fetch), obj (error) and resp (deliver); each history runs on a fresh interpreter through the real statement path with a snapshot of 9 reads (+ set/not-set test) after every step; invariants (read-after-set, read-after-unset, frame conditions for other headers and other sub-fields) on every transition and spelling invariance (history with Foo/fOO swapped) on every final state; plus histories of up to 2 operations with sub-field values containing separators (comma, semicolon, space, equals), and cross-object histories (0-1 operation on one object, one operation on each of the other four objects in its own scope on the same interpreter, reads of the first object must not move); a state is the vector of reads (used for counting only, histories are never pruned)",
 		Gen:  gen17,
 		Key: func(c Case) string {
 			var b strings.Builder
 			b.WriteString(c.Obj)
 			for _, o := range c.Ops {
 				b.WriteString("|" + o.String())
+			}
+			if c.Op2 != nil {
+				b.WriteString("||" + c.Obj2 + "|" + c.Op2.String())
 			}
 			return b.String()
 		},
